@@ -565,7 +565,61 @@ func (hg *histGen) emitPattern() {
 	a := g.Intn(nO)
 	b := g.Intn(nO)
 	r := g.Intn(len(hg.mregs))
-	switch g.Intn(9) {
+	switch g.Intn(10) {
+	case 9: // equal options twice with a configuration set on the FIRST CHILD in between: the second child must not see it
+		var cands []int
+		for ci, c := range p.Cfgs {
+			if len(c.Targets) > 0 && !c.ExpectErr && !c.MayErr {
+				cands = append(cands, ci)
+			}
+		}
+		if len(cands) == 0 || len(hg.mregs) >= 6 {
+			hg.emitLint(a, r, false)
+			return
+		}
+		ci := pick(g, cands)
+		T := pick(g, p.Cfgs[ci].Targets)
+		if !hg.mregs[r].Sel[T] {
+			r = 0
+		}
+		if !hg.ensureLoaded(ci) {
+			return
+		}
+		in := []string{T}
+		names := hg.mregs[r].names()
+		for _, j := range g.subset(len(names), g.Range(0, 6)) {
+			in = append(in, names[j])
+		}
+		o := &FilterOpts{IncludeNames: in}
+		if g.Chance(0.3) {
+			o = &FilterOpts{IncludeSources: []string{hg.meta.ByName[T].Source}}
+		}
+		c1 := hg.emitFilterOpts(r, o)
+		if c1 < 0 {
+			return
+		}
+		p.Ops = append(p.Ops, Op{K: "setcfg", Reg: c1, Cfg: ci})
+		hg.mregs[c1].Cfg = ci
+		o2 := *o
+		if o.IncludeNames != nil && g.Chance(0.5) {
+			// the same set, spelled in another order
+			o2.IncludeNames = append([]string(nil), o.IncludeNames...)
+			for i, j := 0, len(o2.IncludeNames)-1; i < j; i, j = i+1, j-1 {
+				o2.IncludeNames[i], o2.IncludeNames[j] = o2.IncludeNames[j], o2.IncludeNames[i]
+			}
+		}
+		c2 := hg.emitFilterOpts(r, &o2)
+		obj := a
+		for oi := range p.Objects {
+			if p.Objects[oi].Kind == hg.meta.ByName[T].Kind {
+				obj = oi
+			}
+		}
+		if c2 >= 0 {
+			hg.emitLint(obj, c2, true)
+		}
+		hg.emitLint(obj, c1, g.Chance(0.5))
+		hg.emitLint(obj, r, false)
 	case 8: // a selection around a lint whose option the registry's configuration sets: parent and child must agree on it
 		var cands []int
 		for ci, c := range p.Cfgs {
